@@ -28,6 +28,8 @@ def cases(tier):
         for rg in range(2):
             cs.append(dict(name=f"graph_h{ih}_rg{rg}", fn="graph", args=dict(tier=tier), prefix=[ih, rg], weight=5))
     cs.append(dict(name="multi_output_op", fn="multi", args=dict(tier=tier), weight=2))
+    for k in range(4):
+        cs.append(dict(name=f"single_output_container{k}", fn="single", args=dict(tier=tier), prefix=[k], weight=2))
     return cs
 
 
@@ -161,3 +163,35 @@ def case_multi(sp, tier):
     A = AStar()
     backward([prog[n] for n in outs], A, inputs=[prog["a"], prog["b"]], parallel_chunk_size=k)
     return _finish(sp, prog, spec, outs, ["a", "b"], A, old, dict(chunk=k, hash_order=horder))
+
+
+def as_container(items, kind):
+    """`inputs` is typed Iterable[Tensor]: lists, tuples, one-shot generators and iterators are all legitimate"""
+    if kind == 0:
+        return list(items)
+    if kind == 1:
+        return tuple(items)
+    if kind == 2:
+        return (x for x in items)
+    return iter(list(items))
+
+
+def case_single(sp, tier):
+    """a single output tensor (incl. a single ROW: 0-d / one-element outputs), `inputs` given as list / tuple / generator / iterator"""
+    set_kernels()
+    kind = choice(4, "container_kind")
+    sy = [(), (1,), (1, 1), (2,), (2, 1)][choice(5, "shape_y")]
+    sa = [(), (2,), (1, 2)][choice(3, "shape_a")]
+    spec = dict(leaves=[("a", sa, True), ("b", (2,), True), ("c", (), True)],
+                ops=[dict(name="f", inputs=["a", "b"], outs=[("y", sy)], deps={(0, 0), (0, 1)})])
+    horder = choice(2, "set_order")
+    prog = Prog(spec, ranks={"a": horder, "b": 1 - horder, "c": 2, "y": 10})
+    ins = [["a", "b"], ["b", "a"], ["a"], ["b", "c", "a"]][choice(4, "inputs")]
+    rows = prog["y"].numel()
+    ks = chunk_options(rows)
+    k = ks[choice(len(ks), "chunk")]
+    old = {"a": set_grad(prog["a"], "a"), "b": None, "c": None}
+    A = AStar()
+    y = prog["y"]
+    backward(y if choice(2, "tensor_or_list") == 0 else [y], A, inputs=as_container([prog[n] for n in ins], kind), parallel_chunk_size=k)
+    return _finish(sp, prog, spec, ["y"], ins, A, old, dict(chunk=k, hash_order=horder, container=["list", "tuple", "generator", "iterator"][kind]))
